@@ -81,7 +81,11 @@ def layered_update_rule(ck, F, ty, rule="V5"):
         new = ms.args[1]
         is_op = vs.node.get("k") == "assignop"
         rhs = vs.args[1]
-        total = tgt + rhs if is_op and isinstance(rhs, Poly) and isinstance(tgt, Poly) else rhs
+        opn = vs.node.get("op", "").replace("Assign", "") if is_op else ""
+        if is_op and isinstance(rhs, Poly) and isinstance(tgt, Poly):
+            total = tgt + rhs if opn == "Add" else (tgt - rhs if opn == "Sub" else None)     # any other compound operator is not an update of this form
+        else:
+            total = rhs
         ta = single_atom(tgt)
         d = atom_args(ta)[1] if ta and atom_fn(ta) == "index" else None
         oldv = None
